@@ -14,6 +14,12 @@ copied by hand: the decidable bundle `langOk` (`Lemmas/Headers.lean`: both expre
 name token on every accepting path) is evaluated by the kernel in `all_ok`, and the theorems
 follow from the soundness of the checkers (`Lemmas/Unambiguous.lean`).
 
+Scope.  All theorems are about ONE construction of the tables: `compileTok` = Thompson
+construction with state ids from 1 and the subset construction iterating sets in list order
+(`Model/Scopes.lean`).  That other id bases and other set-iteration orders give bisimilar tables
+(hence the same absence of ambiguity and the same headers) is `C06.find_all_indep` /
+`C06.get_headers_indep`, not repeated here.
+
 Vocabulary: a matcher state of an attempt is a configuration `(DFA state, nesting depths)`;
 `Reach D cfg` = `cfg` is the initial configuration `(start, [])` or is obtained from a reachable
 configuration by a successful `Pattern.consume` of some token. "The transition labelled `p`
@@ -51,7 +57,14 @@ theorem follow_compiles (L : Language) (hL : L ∈ Gen.all.map (·.2)) (hp : Hea
 /-! ## 2. at most one transition applies -/
 
 /-- header patterns: in every reachable matcher configuration (any DFA state, any nesting
-depths) and for every token, at most one transition of the current state applies -/
+depths) and for every token, at most one transition of the current state applies.
+
+Reading note: the count is taken with every label judged against the depths `cfg.2` the
+configuration is ENTERED with, whereas `Pattern.consume` evaluates the transitions one after the
+other and each evaluation of a `Balanced` mutates that predicate's own depth.  The two agree
+because the labels of a row are pairwise distinct predicates and a predicate's verdict depends on
+its own depth only; the statement that follows the code literally (mutation included) is
+`consume_never_raises`. -/
 theorem no_ambiguity (L : Language) (hL : L ∈ Gen.all.map (·.2)) (hp : HeaderPat)
     (hhp : hp ∈ L.pats) :
     ∀ D, compileTok hp.expr = .ok D → ∀ cfg, Reach D cfg → ∀ tok : Tok,
